@@ -1219,9 +1219,11 @@ class Interp(object):
                 d.update(kwargs)
                 return d
             return Top('dict')
-        if name == 'set':
+        if name in ('set', 'frozenset'):
             if isinstance(a0, (list, tuple)) and not _has_abstract(a0):
                 return tuple(sorted(set(a0), key=repr))
+            if not args:
+                return ()
             return Top('set')
         if name == 'enumerate':
             if isinstance(a0, (list, tuple)) or (isinstance(a0, (str, bytes)) and len(a0) <= 4096):
